@@ -1,6 +1,7 @@
 import Hive.Base.Proto
 import Hive.Gen.C19_SafeMath
 import Hive.Model.SafeMathOps
+import Hive.Model.SafeMathSearch
 open Hive.Proto Hive.GoInt Hive.Gen.SafeMath
 
 /-- `parseTy` of GoInt.lean plus the defined 16-bit types of the harness. -/
@@ -24,6 +25,10 @@ def stepC19 (_ : Unit) (toks : List String) : Unit × String :=
         | "shl" => showRes (SafeLeftShift T x y)
         | _ => "bad-op"
       | _, _, _ => "bad-op"
+    | ["search", fn, k] =>
+      match parseTyC19 k with
+      | some T => Hive.SafeMathSearch.search fn T
+      | none => "bad-op"
     | ["raw", op, k, x, y] =>
       match parseTyC19 k, int? x, int? y with
       | some T, some x, some y =>
@@ -44,12 +49,23 @@ def stepC19 (_ : Unit) (toks : List String) : Unit × String :=
         | "tou64" => toString (IntTy.u64.wrap x)
         | "toi64" => toString (IntTy.i64.wrap x)
         | "tou8" => toString (IntTy.u8.wrap x)
+        | "len64" => toString (bitLen (IntTy.u64.wrap x))
+        | "lz64" => toString (leadingZeros 64 (IntTy.u64.wrap x))
+        | "tz64" => toString (trailingZeros 64 (IntTy.u64.wrap x))
         | _ => "bad-op"
       | _, _, _ => "bad-op"
     | ["raw64", "mul", x, y] =>
       match int? x, int? y with
       | some x, some y => let p := mul64 x y; s!"{p.1} {p.2}"
       | _, _ => "bad-op"
+    | ["raw64", "add", x, y, c] =>
+      match int? x, int? y, int? c with
+      | some x, some y, some c => let p := add64 x y c; s!"{p.1} {p.2}"
+      | _, _, _ => "bad-op"
+    | ["raw64", "sub", x, y, c] =>
+      match int? x, int? y, int? c with
+      | some x, some y, some c => let p := sub64 x y c; s!"{p.1} {p.2}"
+      | _, _, _ => "bad-op"
     | ["raw64", "div", hi, lo, y] =>
       match int? hi, int? lo, int? y with
       | some hi, some lo, some y =>
